@@ -1,7 +1,7 @@
 //! C12 — layered filesystem: top layer wins, writes stay on top, read-after-write.
 use crate::engine::prop::{Cx, Prop, Tier};
 use crate::gen::archive::{content_strategy, ArchiveContent};
-use crate::gen::fs::{compressed_suffix, expected_localized, is_lz10_game, layer_strategy, lookup, path_strategy, payload_strategy, populate, reference_expand, Entry, Node, Payload, Sandbox, Tree, GAMES, LANGS};
+use crate::gen::fs::{decorate, compressed_suffix, expected_localized, is_lz10_game, layer_strategy, lookup, path_strategy, payload_strategy, populate, reference_expand, Entry, Node, Payload, Sandbox, Tree, GAMES, LANGS};
 use crate::refimpl::refbin;
 use crate::refimpl::reflz::{self, Kind};
 use mila::{Endian, LayeredFilesystem, TextArchive, TextArchiveFormat};
@@ -25,6 +25,10 @@ pub enum Op {
     Text { path: String, title: String, entries: Vec<(String, String)>, localized: bool },
     /// a pack file (FE9/10) or an arc file (3DS) written as bytes, then read through the typed helper
     Container { path: String, files: Vec<(String, Vec<u8>)>, localized: bool },
+    /// read_text_archive(path) -> edit WITHOUT set_message (set_title and/or delete_message) -> write_text_archive(path) -> read again
+    TextEdit { path: String, new_title: Option<String>, delete: Option<u16>, localized: bool },
+    /// a texture container (CTPK / BCH / CGFX / TPL by index) written as bytes, then read through the typed texture helper
+    Textures { path: String, container: u8, count: u8, seed: u64, localized: bool },
 }
 
 #[derive(Clone, Debug, Hash, Serialize, Deserialize)]
@@ -34,6 +38,9 @@ pub struct Case {
     /// initial contents, lowest priority first (1..=4 layers)
     pub layers: Vec<Vec<Entry>>,
     pub ops: Vec<Op>,
+    /// how the layer directories are spelled when handed to LayeredFilesystem::new (0 = canonical)
+    #[serde(default)]
+    pub root_style: u8,
 }
 
 /// top-down search over the snapshots: index of the top-most layer in which `path` satisfies `pred`
@@ -223,6 +230,8 @@ fn op_strategy() -> BoxedStrategy<Op> {
         1 => (p(), content_strategy(24, 4, 3, false), loc()).prop_map(|(path, content, localized)| Op::Archive { path, content, localized }),
         1 => (p(), "[a-z]{0,6}", proptest::collection::vec(("[A-Z]{1,5}", "[a-z ]{0,9}"), 0..4), loc()).prop_map(|(path, title, entries, localized)| Op::Text { path, title, entries, localized }),
         1 => (p(), proptest::collection::vec(("[a-z]{1,6}", proptest::collection::vec(any::<u8>(), 0..40)), 0..4), loc()).prop_map(|(path, files, localized)| Op::Container { path, files, localized }),
+        2 => (p(), proptest::option::of("[a-z]{0,5}"), proptest::option::of(any::<u16>()), loc()).prop_map(|(path, new_title, delete, localized)| Op::TextEdit { path, new_title, delete, localized }),
+        1 => (p(), 0u8..4, 0u8..3, any::<u64>(), loc()).prop_map(|(path, container, count, seed, localized)| Op::Textures { path, container, count, seed, localized }),
     ]
     .boxed()
 }
@@ -233,7 +242,7 @@ impl Prop for C12 {
     fn rule() -> String {
         "Stateful on real directories (tmpfs sandbox, one per case): 1..=4 layers pre-populated from a tree generator over a small pool of plain components (so the same relative path occurs in several layers, as a file in one and a directory \
          in another; files with the game's compressed suffix hold reference-encoded streams, occasionally garbage), game in {FE9, FE10, FE13, FE14, FE15} x 8 languages, and a list of operations: write (payloads empty, 1..=3 bytes, compressible, incompressible, up to 8 KiB; \
-         localized or not), read, exists, file_exists, directory_exists, resolve, create_dir, write_archive+read_archive, write_text_archive+read_text_archive, and a pack/arc container written as bytes and read through read_fe9_arc/read_arc. \
+         localized or not), read, exists, file_exists, directory_exists, resolve, create_dir, write_archive+read_archive, write_text_archive+read_text_archive (also load -> set_title/delete_message -> save -> load, i.e. edits that never raise the dirty flag), a pack/arc container written as bytes and read through read_fe9_arc/read_arc, and CTPK/BCH/CGFX/TPL containers read through the typed texture readers; payloads may themselves be complete compressed streams; the layer directories are handed to LayeredFilesystem::new in canonical or equivalent non-canonical spellings (trailing slash, '/.', 'X/../X'). \
          Oracle: every layer directory is walked (std::fs) before and after each call. read = bytes of the top-most layer holding the (localised) path as a regular file, expanded by the reference LZ decoder when the requested name has the compressed suffix, else an error; \
          write Ok => all lower layers byte-identical, the top layer changes only at the target and its new parent directories, the stored bytes equal the payload or are a stream the reference reader accepts (LZ10 for FE9/10, 0x13-wrapped LZ11 for FE13-15) expanding to it, and an immediate read returns the payload; \
          write must succeed when the top layer has no file/directory conflict on the path; existence queries and resolve equal the same top-down search; typed helpers equal the byte-level call composed with the game's codec (checked by decoding the stored file with the reference bin reader: endianness, text encoding, compression). \
@@ -252,8 +261,8 @@ impl Prop for C12 {
     }
     fn strategy(tier: Tier) -> BoxedStrategy<Case> {
         let max_ops = tier.pick(15usize, 40);
-        (0u8..5, 0u8..8, proptest::collection::vec(layer_strategy(), 1..=4), proptest::collection::vec(op_strategy(), 1..=max_ops))
-            .prop_map(|(game, language, layers, ops)| Case { game, language, layers, ops })
+        (0u8..5, 0u8..8, proptest::collection::vec(layer_strategy(), 1..=4), proptest::collection::vec(op_strategy(), 1..=max_ops), prop_oneof![3 => Just(0u8), 1 => any::<u8>()])
+            .prop_map(|(game, language, layers, ops, root_style)| Case { game, language, layers, ops, root_style })
             .boxed()
     }
     fn enumerate(_tier: Tier, shard: u64, nshards: u64, f: &mut dyn FnMut(Case) -> bool) {
@@ -298,7 +307,7 @@ impl Prop for C12 {
                             Op::Write { path: "data/readme/inner.bin".into(), payload: Payload::Raw(vec![1]), localized: false },
                         ],
                     };
-                    if !f(Case { game, language, layers: vec![lower, vec![], vec![]], ops }) {
+                    if !f(Case { game, language, layers: vec![lower, vec![], vec![]], ops, root_style: variant as u8 + language }) {
                         return;
                     }
                 }
@@ -326,14 +335,16 @@ impl Prop for C12 {
         let nlayers = case.layers.len().clamp(1, 4);
         let sb = Sandbox::new(nlayers);
         populate(&sb, game, &case.layers[..nlayers]);
-        let fs = match cx.call(|| LayeredFilesystem::new(sb.layers.clone(), lang, game)) {
+        let given: Vec<String> = sb.layers.iter().enumerate().map(|(i, l)| decorate(l, case.root_style.wrapping_add(i as u8 * (case.root_style % 3)))).collect();
+        let fs = match cx.call(|| LayeredFilesystem::new(given.clone(), lang, game)) {
             Some(Ok(f)) => f,
             Some(Err(e)) => {
-                cx.fail("filesystem-new", format!("{e}"));
+                cx.fail("filesystem-new", format!("LayeredFilesystem::new({given:?}): {e}"));
                 return;
             }
             None => return,
         };
+        cx.label_if(case.root_style % 5 != 0, "non-canonical-layer-root-spelling");
         let snaps = sb.snapshots();
         let mut w = World { sb, fs, game, lang, snaps };
         let endian_be = is_lz10_game(game);
@@ -572,7 +583,7 @@ impl Prop for C12 {
                             Err(_) => continue,
                         }
                     } else {
-                        let c = super::c16::Case { files: distinct.iter().enumerate().map(|(i, (n, c))| (n.clone(), c.len() as u32, i as u64 + 1)).collect(), header: distinct.len() % 2 == 0, layout_seed: distinct.len() as u64, alt_image: false, negative: super::c16::Negative::None };
+                        let c = super::c16::Case { files: distinct.iter().enumerate().map(|(i, (n, c))| (n.clone(), c.len() as u32, i as u64 + 1)).collect(), header: distinct.len() % 2 == 0, layout_seed: distinct.len() as u64, alt_image: false, negative: super::c16::Negative::None, extras: 0 };
                         let b = super::c16::build(&c);
                         distinct = b.files.clone();
                         refbin::write_canonical(&b.content, None)
@@ -614,6 +625,125 @@ impl Prop for C12 {
                                     return;
                                 }
                                 None => return,
+                            }
+                        }
+                    }
+                }
+                Op::TextEdit { path, new_title, delete, localized } => {
+                    // only meaningful when a text archive can be read there
+                    let before = match cx.call(|| w.fs.read_text_archive(path, *localized)) {
+                        Some(Ok(t)) => t,
+                        Some(Err(_)) => continue,
+                        None => return,
+                    };
+                    let mut t = before;
+                    let mut model: Vec<(String, String)> = t.get_entries().iter().map(|(a, b)| (a.clone(), b.clone())).collect();
+                    let mut title = t.get_title().to_string();
+                    if let Some(nt) = new_title {
+                        t.set_title(nt.clone());
+                        title = nt.clone();
+                    }
+                    if let Some(sel) = delete {
+                        if !model.is_empty() {
+                            let i = (*sel as usize * model.len()) >> 16;
+                            let k = model.remove(i).0;
+                            t.delete_message(&k);
+                        }
+                    }
+                    let image = match t.serialize() {
+                        Ok(b) => b,
+                        Err(_) => continue,
+                    };
+                    let res = match cx.call(|| w.fs.write_text_archive(path, &t, *localized).map_err(|e| e.to_string())) {
+                        Some(r) => r,
+                        None => return,
+                    };
+                    let ok = res.is_ok();
+                    if !do_write(cx, &mut w, &name, path, &image, *localized, res) {
+                        return;
+                    }
+                    if ok {
+                        cx.label("typed:text-archive-edit-without-set");
+                        cx.nontrivial();
+                        match cx.call(|| w.fs.read_text_archive(path, *localized)) {
+                            Some(Ok(r)) => {
+                                let got: Vec<(String, String)> = r.get_entries().iter().map(|(a, b)| (a.clone(), b.clone())).collect();
+                                let title_ok = endian_be || r.get_title() == title;
+                                if !cx.check(got == model && title_ok, "typed-helper-round-trip", || format!("{name}: after load -> edit -> save, read_text_archive returned title {:?} entries {got:?}; expected {title:?} {model:?}", r.get_title())) {
+                                    return;
+                                }
+                            }
+                            Some(Err(e)) => {
+                                cx.fail("typed-helper-round-trip", format!("{name}: read_text_archive failed after the save: {e}"));
+                                return;
+                            }
+                            None => return,
+                        }
+                    }
+                }
+                Op::Textures { path, container, count, seed, localized } => {
+                    use crate::refimpl::reftex::{build_bch, build_cgfx, build_ctpk, build_tpl, Tex, TplImage, FORMATS};
+                    let n = *count as usize;
+                    let mut r = crate::engine::prop::Mix64(*seed);
+                    let texs: Vec<Tex> = (0..n)
+                        .map(|i| {
+                            let fmt = FORMATS[(r.next() % 9) as usize];
+                            let (tw, th) = (8usize << (r.next() % 2), 8usize << (r.next() % 2));
+                            Tex { name: format!("tex{i}"), w: tw, h: th, fmt, payload: r.bytes(fmt.payload_len(tw, th)) }
+                        })
+                        .collect();
+                    let image = match container % 4 {
+                        0 => build_ctpk(&texs, *seed % 3, &|s| s.as_bytes().to_vec()).bytes,
+                        1 => build_bch(&texs, *seed % 3).bytes,
+                        2 => build_cgfx(&texs, *seed % 3).bytes,
+                        _ => {
+                            let imgs: Vec<TplImage> = (0..n).map(|i| TplImage { w: 5 + i, h: 3 + i, indices: vec![0; crate::refimpl::reftex::ci8_len(5 + i, 3 + i)], palette: vec![0x8000 | i as u16, 0x7FFF] }).collect();
+                            build_tpl(&imgs, *seed % 3).bytes
+                        }
+                    };
+                    let res = match cx.call(|| w.fs.write(path, &image, *localized).map_err(|e| e.to_string())) {
+                        Some(r) => r,
+                        None => return,
+                    };
+                    let ok = res.is_ok();
+                    if !do_write(cx, &mut w, &name, path, &image, *localized, res) {
+                        return;
+                    }
+                    if ok {
+                        cx.label("typed:textures");
+                        // typed helper = byte-level read composed with the container parser
+                        let direct: Result<Vec<(String, usize, usize, Vec<u8>)>, String> = match container % 4 {
+                            0 => mila::ctpk::read(&image).map_err(|e| e.to_string()),
+                            1 => mila::bch::read(&image).map_err(|e| e.to_string()),
+                            2 => mila::cgfx::read(&image).map_err(|e| e.to_string()),
+                            _ => mila::tpl::Tpl::extract_textures(&image).map_err(|e| e.to_string()),
+                        }
+                        .map(|v| v.into_iter().map(|t| (t.filename, t.width, t.height, t.pixel_data)).collect());
+                        let via: Option<Result<Vec<(String, usize, usize, Vec<u8>)>, String>> = cx.call(|| match container % 4 {
+                            0 => w.fs.read_ctpk_textures(path, *localized).map(|m| m.into_values().map(|t| (t.filename, t.width, t.height, t.pixel_data)).collect::<Vec<_>>()).map_err(|e| e.to_string()),
+                            1 => w.fs.read_bch_textures(path, *localized).map(|m| m.into_values().map(|t| (t.filename, t.width, t.height, t.pixel_data)).collect::<Vec<_>>()).map_err(|e| e.to_string()),
+                            2 => w.fs.read_cgfx_textures(path, *localized).map(|m| m.into_values().map(|t| (t.filename, t.width, t.height, t.pixel_data)).collect::<Vec<_>>()).map_err(|e| e.to_string()),
+                            _ => w.fs.read_tpl_textures(path, *localized).map(|v| v.into_iter().map(|t| (t.filename, t.width, t.height, t.pixel_data)).collect::<Vec<_>>()).map_err(|e| e.to_string()),
+                        });
+                        let via = match via {
+                            Some(v) => v,
+                            None => return,
+                        };
+                        match (direct, via) {
+                            (Ok(mut d), Ok(mut v)) => {
+                                d.sort();
+                                v.sort();
+                                if !cx.check(d == v && d.len() == n, "typed-helper-round-trip", || format!("{name}: the typed texture reader returned {} textures, parsing the written bytes directly gives {} (packed {n})", v.len(), d.len())) {
+                                    return;
+                                }
+                            }
+                            (Ok(_), Err(e)) => {
+                                cx.fail("typed-helper-round-trip", format!("{name}: typed texture reader failed on a file the container parser accepts: {e}"));
+                                return;
+                            }
+                            (Err(e), _) => {
+                                cx.fail("typed-helper-round-trip", format!("{name}: the container parser rejects the harness-built file: {e}"));
+                                return;
                             }
                         }
                     }
